@@ -152,6 +152,57 @@ def run(prog: Program, res: Result) -> None:
                     res.fail("C04.S2b", file=fi.file, line=c.lineno, qualname=fi.qualname, construct=c, message=f"context.markup() marks `{norm(c.args[0], 60)}` safe although it is not the content of a render buffer", what=what)
     res.floor("C04.S2b", "context.markup() calls", n_mk, 2)
 
+    # ------------------------------------------------------------------ S4 the trusted sanitisers' own bodies
+    res.rule("C04.S4", "the stringifiers the other rules trust (to_liquid_string, _to_liquid_string): with auto_escape true, every return hands back a value last assigned from escape(...) - no branch returns before the escape")
+    from sa.cfg import CFG
+    from sa.cfg import forward
+
+    sanitisers = [f for f in (prog.fn_opt("liquid2/stringify.py", "to_liquid_string"), prog.fn_opt("liquid2/builtin/expressions.py", "_to_liquid_string")) if f is not None]
+    res.floor("C04.S4", "stringifier functions", len(sanitisers), 2)
+    for f in sanitisers:
+        res.analysed_functions.add(f.fid)
+        if "auto_escape" not in f.params():
+            res.fail("C04.S4", file=f.file, line=f.node.lineno, qualname=f.qualname, construct="no auto_escape parameter", message="the stringifier lost its auto_escape parameter", what=f"{f.qualname}: escapes when auto_escape is true")
+            continue
+        cfg = CFG(f.node)
+
+        def transfer(n, st, label):  # noqa: ANN001, ANN202
+            if n.kind == "test" and n.node is not None and norm(n.node) == "auto_escape" and label == "false":
+                return None  # analysed under the assumption auto_escape == True
+            if n.kind == "test" and n.node is not None and norm(n.node) == "not auto_escape" and label == "true":
+                return None
+            if label == "exc":
+                return st
+            if n.kind == "stmt" and isinstance(n.node, (ast.Assign, ast.AnnAssign, ast.AugAssign)):
+                tg = n.node.targets if isinstance(n.node, ast.Assign) else [n.node.target]
+                v = n.node.value
+                out = set(st)
+                for t in tg:
+                    if isinstance(t, ast.Name):
+                        is_esc = not isinstance(n.node, ast.AugAssign) and isinstance(v, ast.Call) and S.qual(f, v.func) in ("markupsafe.escape",) and len(v.args) == 1  # noqa: B023
+                        if is_esc:
+                            out.add(t.id)
+                        else:
+                            out.discard(t.id)
+                return frozenset(out)
+            return st
+
+        IN = forward(cfg, frozenset(), transfer, lambda a, b: a & b, bottom=None)
+        rets = [n for n in cfg.nodes if n.kind == "stmt" and isinstance(n.node, ast.Return)]
+        res.floor("C04.S4", f"return statements in {f.qualname}", len(rets), 1)
+        for r in rets:
+            site = f"{f.file}:{r.line} {f.qualname}"
+            what = f"`{norm(r.node, 60)}` returns escaped text when auto_escape is true"
+            if r.id not in IN:
+                res.ok("C04.S4", site, what, "unreachable when auto_escape is true")
+                continue
+            v = r.node.value
+            direct = isinstance(v, ast.Call) and S.qual(f, v.func) == "markupsafe.escape"
+            if direct or (isinstance(v, ast.Name) and v.id in IN[r.id]) or (isinstance(v, ast.Constant)):
+                res.ok("C04.S4", site, what, "value last assigned from escape(...) on every path")
+            else:
+                res.fail("C04.S4", file=f.file, line=r.line, qualname=f.qualname, construct=f"{norm(r.node, 60)} before escape", message=f"`{norm(r.node, 60)}` is reachable with auto_escape true without the value passing through escape(): every output statement, template string and filter argument relies on this function to escape context data", what=what)
+
     # ------------------------------------------------------------------ S3
     res.rule("C04.S3", "no other minting of safe strings: no __html__ in liquid2, no auto_escape=False at an output node, default translation filters wired to env.auto_escape, render buffers filled only by node rendering")
     for ci in prog.all_classes():
@@ -184,6 +235,8 @@ def run(prog: Program, res: Result) -> None:
     n_ae = 0
     for ci in prog.subclasses(node_base):
         for m in ci.methods.values():
+            if not _is_render_method(m):
+                continue  # helpers that stringify lookup keys (message contexts, template names) write nothing; what a render method writes is S1's business
             for c in ast.walk(m.node):
                 if isinstance(c, ast.Call) and (dotted(c.func) or "").endswith("to_liquid_string"):
                     kw = {k.arg: k.value for k in c.keywords}
